@@ -290,6 +290,19 @@ impl Memfs {
         Ok(path)
     }
 
+    // A followed link may point to another link: when following, resolve to the first entry of the chain
+    // that isn't a link so that a link itself is never modified
+    fn _resolve_links(guard: &MemfsGuard, path: &Path, follow: bool) -> PathBuf {
+        let mut path = path.to_path_buf();
+        for _ in 0..40 {
+            match guard.get_entry(&path) {
+                Some(entry) if follow && entry.is_symlink() => path = entry.alt_buf(),
+                _ => return path,
+            }
+        }
+        PathBuf::new() // a chain that never ends names nothing to modify
+    }
+
     // Execute chmod with the given options
     fn _chmod(&self, opts: ChmodOpts) -> RvResult<()> {
         // Using `contents_first` to yield directories last so that revoking permissions happen to
@@ -312,7 +325,8 @@ impl Memfs {
             let m1 = sys::mode(x, m.dirs, &m.sym)?;
             if m1 != 0 && (!x.is_symlink() || m.follow) && x.is_dir() && !sys::revoking_mode(x.mode(), m1) && x.mode() != m1 {
                 let mut guard = vfs.write_guard();
-                if let Some(entry) = guard.get_entry_mut(x.path()) {
+                let path = Memfs::_resolve_links(&guard, x.path(), m.follow);
+                if let Some(entry) = guard.get_entry_mut(&path) {
                     entry.set_mode(Some(m1));
                 }
             }
@@ -335,7 +349,8 @@ impl Memfs {
             // Apply permission to entry if set
             if (!src.is_symlink() || opts.follow) && m2 != src.mode() && m2 != 0 {
                 let mut guard = self.write_guard();
-                if let Some(entry) = guard.get_entry_mut(src.path()) {
+                let path = Memfs::_resolve_links(&guard, src.path(), opts.follow);
+                if let Some(entry) = guard.get_entry_mut(&path) {
                     entry.set_mode(Some(m2));
                 }
             }
@@ -352,7 +367,8 @@ impl Memfs {
         let mut guard = self.write_guard();
         for entry in entries {
             let src = entry?;
-            if let Some(entry) = guard.get_entry_mut(src.path()) {
+            let path = Memfs::_resolve_links(&guard, src.path(), opts.follow);
+            if let Some(entry) = guard.get_entry_mut(&path) {
                 entry.set_owner(opts.uid, opts.gid);
             }
         }
